@@ -1,5 +1,6 @@
 import Labella.Model.Scale
 import Labella.Proofs.TickLemmas
+import Labella.Proofs.FormatLemmas
 import Mathlib.Algebra.Order.Field.Rat
 import Mathlib.Tactic.Ring
 import Mathlib.Tactic.Linarith
@@ -153,5 +154,31 @@ theorem format_exact (d0 d1 m x : ℚ) (hd : d0 ≠ d1) (hm : 0 < m) (hx : x ∈
 example : (0 : ℚ) < 1 ∧ (0 : ℚ) < 10 := by norm_num
 
 
+/-- the text of a number reads back as the number rounded to `d` decimals (the sign is printed iff the scaled,
+rounded integer is negative, so a value that rounds to zero prints as "0.00" and reads back as 0) -/
+theorem parseDecimal_formatFixed (x : ℚ) (d : ℕ) : parseDecimal (formatFixed x d) = some (fixedValue d x) := by
+  exact Scale.parseDecimal_formatFixed x d
+
+/-- ticks are pairwise distinct -/
+theorem ticks_nodup (d0 d1 m : ℚ) (hd : d0 ≠ d1) (hm : 0 < m) : (ticks d0 d1 m).Nodup := by
+  have hpos := tickRange_step_pos d0 d1 m hd hm
+  rw [ticks_eq d0 d1 m hd hm]
+  simp only
+  apply List.Nodup.map _ List.nodup_range
+  intro a b h
+  simp only at h
+  have := mul_right_cancel₀ hpos.ne' h
+  have h3 := Int.cast_injective this
+  omega
+
+/-- **C13, texts:** for a non-degenerate domain and m > 0 the model's tick texts are pairwise distinct and each reads
+back as exactly its tick -/
+theorem tick_texts_ok (d0 d1 m : ℚ) (hd : d0 ≠ d1) (hm : 0 < m) :
+    textsOKB (tickRange d0 d1 m).2.2 (ticks d0 d1 m)
+      ((ticks d0 d1 m).map (fun x => formatFixed x (tickDecimals (tickRange d0 d1 m).2.2))) = true := by
+  apply textsOKB_map _ (tickRange_step_pos d0 d1 m hd hm).le _ (ticks_nodup d0 d1 m hd hm)
+  intro x hx
+  rw [Scale.parseDecimal_formatFixed]
+  exact congrArg some (format_exact d0 d1 m x hd hm hx)
 
 end Labella.C13
